@@ -64,13 +64,18 @@ pub fn gen_text(r: &mut Rng, class: &str, tag: &str) -> String {
 
 /// Generate a program (plain JSON).
 pub fn gen_program(r: &mut Rng, rich: bool, text_classes: &[&str]) -> Value {
-    let npages = if r.chance(1, 4) { 1 } else { r.urange(2, 6) };
+    // one program in twelve is long (more than a hundred non-stream objects: several object streams)
+    let long_doc = r.chance(1, 12);
+    let npages = if long_doc { r.urange(100, 140) } else if r.chance(1, 4) { 1 } else { r.urange(2, 6) };
+    // one program in three gives every page's picture the same resource name and geometry (different samples)
+    let shared_image = r.chance(1, 3);
+    let shared_kind = *r.pick(&["rgb", "gray", "rgba"]);
     let mut pages = Vec::new();
     for pi in 0..npages {
         let (w, h) = *r.pick(&[(595.0, 842.0), (612.0, 792.0), (300.5, 400.25), (200.0, 200.0), (841.89, 595.28)]);
         let rot = *r.pick(&[0, 0, 0, 90, 180, 270]);
         let mut steps = Vec::new();
-        let nsteps = r.urange(3, 30);
+        let nsteps = if long_doc { r.urange(1, 3) } else { r.urange(3, 30) };
         let mut depth = 0;
         for _ in 0..nsteps {
             let x = (r.below(50000) as f64) / 100.0;
@@ -107,7 +112,15 @@ pub fn gen_program(r: &mut Rng, rich: bool, text_classes: &[&str]) -> Value {
             steps.push(json!({"op": "restore"}));
         }
         let mut images = Vec::new();
-        if rich && r.chance(1, 2) {
+        if rich && shared_image && (!long_doc || pi % 10 == 0) {
+            let (iw, ih) = (4u32, 3u32);
+            let n = match shared_kind {
+                "rgb" => 3,
+                "gray" => 1,
+                _ => 4,
+            } * (iw * ih) as usize;
+            images.push(json!({"name": "Chart", "kind": shared_kind, "w": iw, "h": ih, "data": crate::rec::hex(&r.bytes(n)), "at": [10.0, 20.0, 40.0, 30.0]}));
+        } else if rich && !long_doc && r.chance(1, 2) {
             for ii in 0..r.urange(1, 2) {
                 let (iw, ih) = (r.urange(1, 9) as u32, r.urange(1, 7) as u32);
                 let kind = *r.pick(&["rgb", "gray", "rgba"]);
@@ -121,7 +134,7 @@ pub fn gen_program(r: &mut Rng, rich: bool, text_classes: &[&str]) -> Value {
             }
         }
         let mut annots = Vec::new();
-        if rich && r.chance(1, 2) {
+        if rich && !long_doc && r.chance(1, 2) {
             for _ in 0..r.urange(1, 3) {
                 let cls = *r.pick(text_classes);
                 annots.push(json!({"kind": *r.pick(&["Text", "Square", "Highlight"]), "rect": [10.0, 10.0 + r.below(500) as f64, 60.0, 30.0],
